@@ -109,6 +109,11 @@ func seqOf(id string) int {
 	return n
 }
 
+// the test sends its envelopes without from, pp and to: that is how a handler must see them
+func unaddressed(e lime.Envelope) bool {
+	return e.From == lime.Node{} && e.PP == lime.Node{} && e.To == lime.Node{}
+}
+
 func sameAsSent(id string, md map[string]string, extraOK bool) string {
 	if strings.HasPrefix(id, "e") && md["marker"] == "m-"+id && extraOK {
 		return "same"
@@ -126,6 +131,9 @@ func buildMux(c Case, r *recorder) *lime.EnvelopeMux {
 	tab[c.Cfg.Focus] = c.Cfg.Hs
 	outcome := func(h H) error {
 		if h.Out == "err" {
+			if c.N%2 == 1 { // an error that wraps a context error (the handler's own sub-deadline, say)
+				return fmt.Errorf("handler failed: %w", context.DeadlineExceeded)
+			}
 			return errors.New("handler failed")
 		}
 		return nil
@@ -134,7 +142,7 @@ func buildMux(c Case, r *recorder) *lime.EnvelopeMux {
 		idx, h := i+1, h
 		f := func(ctx context.Context, e *lime.Message, s lime.Sender) error {
 			txt, _ := e.Content.(*lime.TextDocument)
-			r.log(Event{K: "call", Seq: seqOf(e.ID), Kind: "msg", Idx: idx, Res: sameAsSent(e.ID, e.Metadata, txt != nil && string(*txt) == "body-"+e.ID)})
+			r.log(Event{K: "call", Seq: seqOf(e.ID), Kind: "msg", Idx: idx, Res: sameAsSent(e.ID, e.Metadata, txt != nil && string(*txt) == "body-"+e.ID && unaddressed(e.Envelope))})
 			return outcome(h)
 		}
 		if h.Pred == "nil" {
@@ -146,7 +154,7 @@ func buildMux(c Case, r *recorder) *lime.EnvelopeMux {
 	for i, h := range tab["not"] {
 		idx, h := i+1, h
 		f := func(ctx context.Context, e *lime.Notification) error {
-			r.log(Event{K: "call", Seq: seqOf(e.ID), Kind: "not", Idx: idx, Res: sameAsSent(e.ID, e.Metadata, e.Event == lime.NotificationEventConsumed)})
+			r.log(Event{K: "call", Seq: seqOf(e.ID), Kind: "not", Idx: idx, Res: sameAsSent(e.ID, e.Metadata, e.Event == lime.NotificationEventConsumed && unaddressed(e.Envelope))})
 			return outcome(h)
 		}
 		if h.Pred == "nil" {
@@ -158,7 +166,7 @@ func buildMux(c Case, r *recorder) *lime.EnvelopeMux {
 	for i, h := range tab["req"] {
 		idx, h := i+1, h
 		f := func(ctx context.Context, e *lime.RequestCommand, s lime.Sender) error {
-			r.log(Event{K: "call", Seq: seqOf(e.ID), Kind: "req", Idx: idx, Res: sameAsSent(e.ID, e.Metadata, e.Method == lime.CommandMethodSet && e.URI != nil && e.URI.Path() == "/thing")})
+			r.log(Event{K: "call", Seq: seqOf(e.ID), Kind: "req", Idx: idx, Res: sameAsSent(e.ID, e.Metadata, e.Method == lime.CommandMethodSet && e.URI != nil && e.URI.Path() == "/thing" && unaddressed(e.Envelope))})
 			return outcome(h)
 		}
 		if h.Pred == "nil" {
@@ -170,7 +178,7 @@ func buildMux(c Case, r *recorder) *lime.EnvelopeMux {
 	for i, h := range tab["resp"] {
 		idx, h := i+1, h
 		f := func(ctx context.Context, e *lime.ResponseCommand, s lime.Sender) error {
-			r.log(Event{K: "call", Seq: seqOf(e.ID), Kind: "resp", Idx: idx, Res: sameAsSent(e.ID, e.Metadata, e.Status == lime.CommandStatusFailure)})
+			r.log(Event{K: "call", Seq: seqOf(e.ID), Kind: "resp", Idx: idx, Res: sameAsSent(e.ID, e.Metadata, e.Status == lime.CommandStatusFailure && unaddressed(e.Envelope))})
 			return outcome(h)
 		}
 		if h.Pred == "nil" {
